@@ -55,6 +55,7 @@ class Report:
         self.units = []
         self.functions = set()
         self.extra = {}
+        self.inconclusive = []      # parts of the analysis that left the supported fragment
         self.t0 = time.time()
         self.repo = units.REPO
 
@@ -146,6 +147,11 @@ class Report:
         for r, inst, k in known_hits:
             print("KNOWN-FINDING: property=%s %s at %s: %s" % (
                 self.prop, r.full_key(inst), inst["where"], inst["detail"][:300]))
+        for msg in self.inconclusive:
+            print("  INCONCLUSIVE: %s" % msg)
+        if self.inconclusive and not violations:
+            raise AnalysisBroken("%d part(s) of the analysis left the supported fragment: %s"
+                                 % (len(self.inconclusive), self.inconclusive[0]))
         if violations:
             os.makedirs(REPLAY, exist_ok=True)
             for n, (r, inst) in enumerate(violations):
